@@ -24,6 +24,14 @@ def run(ctx):
                 'random binary/unary rule tables, root sets, penalties, beam settings, n-best sizes) run through the real '
                 'C++ parse_sentence (shim + pop hook) and through the Lean model; oracles: ' + ', '.join(sorted(ORACLES))
                 + '. non-trivial = distinct problems with at least one root derivation / returned tree')
+    # the first parse of the process asks for one tree (the default): whatever the search keeps between calls from
+    # then on must not limit the n-best requests that follow
+    import search_common as S
+    if search_checks.setup(ctx):
+        try:
+            S.run_cpp(S.random_problem(ctx.rng, max_n=2, nbest_max=1))
+        except Exception:
+            pass
     search_checks.suite(ctx, PID, ORACLES, GENS, ctx.budget(1200, 12000), max_n_enum=5)
     extra(ctx)
     import cli_common
